@@ -229,6 +229,8 @@ func RunC02(c *Ctx, r *Report) {
 	e.Run(scope)
 	r.Floors[prefix+"nocrash.bounds.slice"] = 10
 
+	c.truncatedToHeaderRule(r, prefix+"truncated-to-header", a.DecodeDecrypt)
+
 	// rule 7: errors are errors
 	rule7 := prefix + "errors-are-errors"
 	r.Rule(rule7, "every failing step of unprotection (header/payload decode, integrity check, decryption, inner decode) turns into a non-nil error returned with a nil message", 8)
@@ -528,5 +530,194 @@ func (c *Ctx) macSpanRules(r *Report, prefix string, a *ikeAnchors, receive bool
 	dd := a.DecodeDecrypt
 	for _, call := range c.callsTo(dd, dm) {
 		r.Check(paramIndex(dd, call.Call.Args[0]) == 0, rule, "ike.DecodeDecrypt: passes the datagram through", c.InstrPos(call), "decryptMsg receives DecodeDecrypt's msg parameter unsliced", "the byte string handed to decryptMsg is not the whole datagram")
+	}
+}
+
+// truncatedToHeaderRule: "every proper prefix of a protected message is refused" includes the prefix that
+// ends right behind the IKE header. Such a datagram decodes without error to a header that still announces
+// an Encrypted payload (NextPayload = SK) and to an empty payload list. The rule follows DecodeDecrypt under
+// exactly these assumptions (decode calls succeed, the header object exists, its NextPayload is TypeSK, the
+// payload list is empty) and requires that no success return is reachable: the datagram must not pass as an
+// empty unprotected message.
+func (c *Ctx) truncatedToHeaderRule(r *Report, rule string, dd *ssa.Function) {
+	r.Rule(rule, "a datagram that ends behind a header announcing an Encrypted payload (NextPayload = SK, no payload octets) is refused: under these assumptions no success return of DecodeDecrypt is reachable", 1)
+	sk := c.constInt("message", "TypeSK")
+	if dd == nil || sk == nil {
+		r.undecided(rule, "ike.DecodeDecrypt", "-", "anchor does not resolve")
+		return
+	}
+	// value of a condition under the assumptions: +1 true, -1 false, 0 unknown
+	var eval func(v ssa.Value, depth int) int
+	isLenPayloads := func(v ssa.Value) bool {
+		call, ok := v.(*ssa.Call)
+		if !ok {
+			return false
+		}
+		if bi, ok := call.Call.Value.(*ssa.Builtin); !ok || bi.Name() != "len" {
+			return false
+		}
+		fk, ok := fieldKeyOfLoad(call.Call.Args[0])
+		return ok && fk == "message.IKEMessage.Payloads"
+	}
+	isNextPayload := func(v ssa.Value) bool {
+		for i := 0; i < 3; i++ {
+			switch x := v.(type) {
+			case *ssa.Convert:
+				v = x.X
+				continue
+			case *ssa.ChangeType:
+				v = x.X
+				continue
+			}
+			break
+		}
+		fk, ok := fieldKeyOfLoad(v)
+		return ok && fk == "message.IKEHeader.NextPayload"
+	}
+	cmp := func(op token.Token, a, b int64) int {
+		res := false
+		switch op {
+		case token.EQL:
+			res = a == b
+		case token.NEQ:
+			res = a != b
+		case token.LSS:
+			res = a < b
+		case token.LEQ:
+			res = a <= b
+		case token.GTR:
+			res = a > b
+		case token.GEQ:
+			res = a >= b
+		default:
+			return 0
+		}
+		if res {
+			return 1
+		}
+		return -1
+	}
+	eval = func(v ssa.Value, depth int) int {
+		if depth > 6 {
+			return 0
+		}
+		switch x := v.(type) {
+		case *ssa.UnOp:
+			if x.Op == token.NOT {
+				return -eval(x.X, depth+1)
+			}
+		case *ssa.BinOp:
+			k, isK := x.Y.(*ssa.Const)
+			other := x.X
+			op := x.Op
+			if !isK {
+				if k2, ok := x.X.(*ssa.Const); ok {
+					k, isK, other = k2, true, x.Y
+					// mirror the comparison
+					switch op {
+					case token.LSS:
+						op = token.GTR
+					case token.GTR:
+						op = token.LSS
+					case token.LEQ:
+						op = token.GEQ
+					case token.GEQ:
+						op = token.LEQ
+					}
+				}
+			}
+			if !isK {
+				return 0
+			}
+			if k.Value == nil {
+				// nil tests: the decode calls succeeded (their error is nil); the header object exists
+				if isErrorType(other.Type()) {
+					return cmp(op, 0, 1) // err (0 = nil) compared with "non-nil": err == nil true, err != nil false
+				}
+				if fk, ok := fieldKeyOfLoad(other); ok && fk == "message.IKEMessage.IKEHeader" {
+					if op == token.NEQ {
+						return 1
+					}
+					if op == token.EQL {
+						return -1
+					}
+				}
+				return 0
+			}
+			kv, ok := constInt64(k.Value)
+			if !ok {
+				return 0
+			}
+			if isLenPayloads(other) {
+				return cmp(op, 0, kv)
+			}
+			if isNextPayload(other) {
+				return cmp(op, *sk, kv)
+			}
+		}
+		return 0
+	}
+	// err == nil: cmp(op, 0, 1) above encodes nil as 0 and the constant side as 1, so EQL is false... fix: handle directly
+	evalCond := func(v ssa.Value) int {
+		if bo, ok := v.(*ssa.BinOp); ok && (bo.Op == token.EQL || bo.Op == token.NEQ) {
+			var other ssa.Value
+			if isNilConst(bo.Y) {
+				other = bo.X
+			} else if isNilConst(bo.X) {
+				other = bo.Y
+			}
+			if other != nil && isErrorType(other.Type()) {
+				if bo.Op == token.EQL {
+					return 1
+				}
+				return -1
+			}
+		}
+		return eval(v, 0)
+	}
+	reach := map[*ssa.BasicBlock]bool{}
+	var visit func(b *ssa.BasicBlock)
+	visit = func(b *ssa.BasicBlock) {
+		if reach[b] {
+			return
+		}
+		reach[b] = true
+		if iff, ok := b.Instrs[len(b.Instrs)-1].(*ssa.If); ok && len(b.Succs) == 2 {
+			switch evalCond(iff.Cond) {
+			case 1:
+				visit(b.Succs[0])
+			case -1:
+				visit(b.Succs[1])
+			default:
+				visit(b.Succs[0])
+				visit(b.Succs[1])
+			}
+			return
+		}
+		for _, s := range b.Succs {
+			visit(s)
+		}
+	}
+	visit(dd.Blocks[0])
+	n := 0
+	var bad []string
+	for _, b := range dd.Blocks {
+		ret, ok := b.Instrs[len(b.Instrs)-1].(*ssa.Return)
+		if !ok || len(ret.Results) != 2 || !isNilConst(ret.Results[1]) {
+			continue
+		}
+		n++
+		if reach[b] {
+			bad = append(bad, c.InstrPos(ret))
+		}
+	}
+	key := "ike.DecodeDecrypt: header announcing SK, no payload octets"
+	switch {
+	case n == 0:
+		r.undecided(rule, key, c.Pos(dd.Pos()), "no success return found")
+	case len(bad) > 0:
+		r.bad(rule, key, bad[0], "the success return at "+strings.Join(bad, ", ")+" is reachable for a datagram that ends behind a header whose NextPayload is SK (the 28-octet prefix of any protected message): it is accepted as an empty unprotected message instead of being refused")
+	default:
+		r.ok(rule, key, c.Pos(dd.Pos()), fmt.Sprintf("none of the %d success return(s) is reachable when the payload list is empty and the header's NextPayload is SK", n), true)
 	}
 }
